@@ -137,7 +137,7 @@ func (c *evalCtx) eval(e ast.Expr) tval {
 			keep = x.Op == token.LAND
 		case *ast.CallExpr:
 			switch fn := exprString(x.Fun); fn {
-			case "forall", "imp", "old":
+			case "forall", "forallk", "imp", "old":
 				keep = true
 			default:
 				_, keep = c.r.v.spec.Preds[fn]
@@ -412,8 +412,23 @@ func (c *evalCtx) selector(x *ast.SelectorExpr) tval {
 // assumeInv: the type invariant of a value read from the heap holds in every
 // heap version; it is assumed when the term mentions no bound variable.
 func (c *evalCtx) assumeInv(v Value, t types.Type) {
-	if tm, ok := v.(Term); ok && (tm.Sort == SSlice) && !strings.Contains(tm.S, "q_") {
+	tm, ok := v.(Term)
+	if !ok || strings.Contains(tm.S, "q_") {
+		return
+	}
+	if tm.Sort == SSlice {
 		c.st.assume(c.r.v.typeInv(c.st, tm, t))
+		return
+	}
+	if tm.Sort == SInt {
+		switch t.Underlying().(type) {
+		case *types.Pointer, *types.Map:
+			a := c.st.alloc
+			if c.cur != nil {
+				a = c.cur.alloc
+			}
+			c.st.assume(And(Le(IntLit(0), tm), Le(tm, a)))
+		}
 	}
 }
 
@@ -423,7 +438,7 @@ func (c *evalCtx) index(x *ast.IndexExpr) tval {
 	switch u := base.T.Underlying().(type) {
 	case *types.Slice:
 		s := base.V.(Term)
-		loc := c.r.v.elemLoc(SlArr(s), Add(SlOff(s), idx), u.Elem())
+		loc := c.r.v.elemLoc(SlArr(s), At(s, idx), u.Elem())
 		return tval{c.r.v.readLoc(c.st, c.cur, loc), u.Elem()}
 	case *types.Map:
 		if c.r.v.ghostArrays[base.T] {
@@ -570,7 +585,15 @@ func (c *evalCtx) call(x *ast.CallExpr) tval {
 		body := c.noSkolem().bind(name, tval{bound, tInt}).term(arg(3))
 		rng := And(Le(lo, bound), Lt(bound, hi))
 		if fname == "forall" {
-			return tval{mk(SBool, "(forall ((%s Int)) (! %s :pattern ((trg %s))))", q, Imp(rng, And(mk(SBool, "(trg %s)", q), body)).S, q), tBool}
+			pats := findPatterns(body.S, q, "(at ")
+			if len(pats) == 0 {
+				return tval{mk(SBool, "(forall ((%s Int)) (! %s :pattern ((trg %s))))", q, Imp(rng, And(mk(SBool, "(trg %s)", q), body)).S, q), tBool}
+			}
+			var ps strings.Builder
+			for _, p := range pats {
+				ps.WriteString(" :pattern (" + p + ")")
+			}
+			return tval{mk(SBool, "(forall ((%s Int)) (! %s%s))", q, Imp(rng, body).S, ps.String()), tBool}
 		}
 		return tval{mk(SBool, "(exists ((%s Int)) %s)", q, And(rng, body).S), tBool}
 	case "forallk", "existsk":
@@ -579,6 +602,23 @@ func (c *evalCtx) call(x *ast.CallExpr) tval {
 		s, ok := c.r.v.leafSort(t)
 		if !ok {
 			c.fail("forallk over %s", t)
+		}
+		ktrg := ""
+		switch s {
+		case SInt:
+			ktrg = "trgk"
+		case SStr:
+			ktrg = "trgs"
+		}
+		if c.skolem && fname == "forallk" {
+			sk := c.st.freshConst("sk_"+name, s)
+			c.st.seedKey(sk)
+			var guard Term = BoolLit(true)
+			if _, _, isInt := intRange(t); isInt {
+				guard = inRange(sk, t)
+			}
+			body := c.bind(name, tval{sk, t}).term(arg(2))
+			return tval{Imp(guard, body), tBool}
 		}
 		*c.st.fresh++
 		q := fmt.Sprintf("q_%s%d", name, *c.st.fresh)
@@ -589,6 +629,16 @@ func (c *evalCtx) call(x *ast.CallExpr) tval {
 			guard = inRange(bound, t)
 		}
 		if fname == "forallk" {
+			if pats := findPatterns(body.S, q, "(select "); len(pats) > 0 {
+				var ps strings.Builder
+				for _, p := range pats {
+					ps.WriteString(" :pattern (" + p + ")")
+				}
+				return tval{mk(SBool, "(forall ((%s %s)) (! %s%s))", q, string(s), Imp(guard, body).S, ps.String()), tBool}
+			}
+			if ktrg != "" {
+				return tval{mk(SBool, "(forall ((%s %s)) (! %s :pattern ((%s %s))))", q, string(s), Imp(guard, And(mk(SBool, "(%s %s)", ktrg, q), body)).S, ktrg, q), tBool}
+			}
 			return tval{mk(SBool, "(forall ((%s %s)) %s)", q, string(s), Imp(guard, body).S), tBool}
 		}
 		return tval{mk(SBool, "(exists ((%s %s)) %s)", q, string(s), And(guard, body).S), tBool}
@@ -599,7 +649,11 @@ func (c *evalCtx) call(x *ast.CallExpr) tval {
 			c.fail("has on non-map")
 		}
 		mi := c.r.v.mapInfo(mt)
-		return tval{c.r.v.mapHas(c.st, c.cur, mi, m.V.(Term), c.term(arg(1))), tBool}
+		kt := c.term(arg(1))
+		if !strings.Contains(kt.S, "q_") {
+			c.st.seedKey(kt)
+		}
+		return tval{c.r.v.mapHas(c.st, c.cur, mi, m.V.(Term), kt), tBool}
 	case "fresh":
 		if c.old == nil {
 			c.fail("fresh() needs an old state")
@@ -632,6 +686,37 @@ func (c *evalCtx) call(x *ast.CallExpr) tval {
 	case "toval":
 		a := c.eval(arg(0))
 		return tval{c.r.toVal(c.st, a.V, a.T), tAny}
+	case "trig":
+		return tval{mk(SBool, "(trg %s)", c.term(arg(0)).S), tBool}
+	case "trigk":
+		kt := c.term(arg(0))
+		if kt.Sort == SStr {
+			return tval{mk(SBool, "(trgs %s)", kt.S), tBool}
+		}
+		return tval{mk(SBool, "(trgk %s)", kt.S), tBool}
+	case "preserved":
+		// preserved(comp...): the component agrees with the old state at every reference allocated then
+		if c.old == nil {
+			c.fail("preserved() needs an old state")
+		}
+		var parts []Term
+		for i := range x.Args {
+			name := strings.ReplaceAll(strings.Trim(exprString(arg(i)), `"`), " ", "")
+			for _, comp := range c.r.v.expandMods([]string{name}) {
+				sig, ok := c.st.compSig[comp]
+				if !ok {
+					if sg, found := c.r.v.sigOfComp(comp); found {
+						c.st.compSig[comp] = sg
+						sig, ok = sg, true
+					}
+				}
+				if !ok {
+					c.fail("preserved: unknown component %s", comp)
+				}
+				parts = append(parts, c.r.frameFormula(sig, c.st.compAt(c.cur, comp, sig), c.st.compAt(c.old, comp, sig), c.old.alloc, nil, true))
+			}
+		}
+		return tval{And(parts...), tBool}
 	case "unchanged":
 		// unchanged(comp): the heap component is the same as in the old state
 		if c.old == nil {
@@ -639,11 +724,17 @@ func (c *evalCtx) call(x *ast.CallExpr) tval {
 		}
 		var parts []Term
 		for i := range x.Args {
-			name := strings.Trim(exprString(arg(i)), `"`)
+			name := strings.ReplaceAll(strings.Trim(exprString(arg(i)), `"`), " ", "")
 			for _, comp := range c.r.v.expandMods([]string{name}) {
 				sig, ok := c.st.compSig[comp]
 				if !ok {
-					continue
+					if sg, found := c.r.v.sigOfComp(comp); found {
+						c.st.compSig[comp] = sg
+						sig, ok = sg, true
+					}
+				}
+				if !ok {
+					c.fail("unchanged: unknown component %s", comp)
 				}
 				parts = append(parts, mk(SBool, "(= %s %s)", c.st.compAt(c.cur, comp, sig), c.st.compAt(c.old, comp, sig)))
 			}
@@ -703,6 +794,57 @@ func (c *evalCtx) goalParts(e ast.Expr) []goalPart {
 		}
 	case *ast.CallExpr:
 		fname := exprString(x.Fun)
+		if (fname == "forall" || fname == "forallk" || fname == "imp") && len(x.Args) >= 2 {
+			// distribute over the conjuncts of the body; predicates inside are not
+			// expanded here (their parameters would need the binder)
+			last := x.Args[len(x.Args)-1]
+			var conj []ast.Expr
+			var flat func(e ast.Expr)
+			flat = func(e ast.Expr) {
+				switch y := e.(type) {
+				case *ast.ParenExpr:
+					flat(y.X)
+					return
+				case *ast.BinaryExpr:
+					if y.Op == token.LAND {
+						flat(y.X)
+						flat(y.Y)
+						return
+					}
+				}
+				conj = append(conj, e)
+			}
+			flat(last)
+			if len(conj) > 1 {
+				var out []goalPart
+				for _, cj := range conj {
+					args := append(append([]ast.Expr(nil), x.Args[:len(x.Args)-1]...), cj)
+					out = append(out, c.goalParts(&ast.CallExpr{Fun: x.Fun, Args: args})...)
+				}
+				return out
+			}
+			if inner, ok := last.(*ast.CallExpr); ok {
+				fn := exprString(inner.Fun)
+				if fn == "forall" || fn == "forallk" || fn == "imp" {
+					sub := c.goalParts(inner)
+					if len(sub) > 1 {
+						var out []goalPart
+						for _, sp := range sub {
+							args := append(append([]ast.Expr(nil), x.Args[:len(x.Args)-1]...), sp.e)
+							out = append(out, goalPart{&ast.CallExpr{Fun: x.Fun, Args: args}, c})
+						}
+						return out
+					}
+				}
+			}
+		}
+		if (fname == "preserved" || fname == "unchanged") && len(x.Args) > 1 {
+			var out []goalPart
+			for _, a := range x.Args {
+				out = append(out, goalPart{&ast.CallExpr{Fun: x.Fun, Args: []ast.Expr{a}}, c})
+			}
+			return out
+		}
 		if p, ok := c.r.v.spec.Preds[fname]; ok && len(x.Args) == len(p.Params) {
 			n := *c
 			n.vars = map[string]tval{}
@@ -723,4 +865,57 @@ func (c *evalCtx) goalParts(e ast.Expr) []goalPart {
 		}
 	}
 	return []goalPart{{e, c}}
+}
+
+// findPatterns returns the distinct subterms "(<head> G q)" of body in which G is a
+// ground term (mentions no bound variable): the natural triggers of a quantifier over q.
+func findPatterns(body, q, head string) []string {
+	var out []string
+	seen := map[string]bool{}
+	for i := 0; i+len(head) <= len(body); i++ {
+		if body[i:i+len(head)] != head {
+			continue
+		}
+		// parse the first argument
+		j := i + len(head)
+		start := j
+		if j < len(body) && body[j] == '(' {
+			depth := 0
+			for ; j < len(body); j++ {
+				if body[j] == '(' {
+					depth++
+				} else if body[j] == ')' {
+					depth--
+					if depth == 0 {
+						j++
+						break
+					}
+				}
+			}
+		} else if j < len(body) && body[j] == '|' {
+			j++
+			for j < len(body) && body[j] != '|' {
+				j++
+			}
+			j++
+		} else {
+			for j < len(body) && body[j] != ' ' && body[j] != ')' {
+				j++
+			}
+		}
+		first := body[start:j]
+		rest := body[j:]
+		if !strings.HasPrefix(rest, " "+q+")") {
+			continue
+		}
+		if strings.Contains(first, "q_") {
+			continue
+		}
+		pat := body[i : j+len(" "+q+")")]
+		if !seen[pat] {
+			seen[pat] = true
+			out = append(out, pat)
+		}
+	}
+	return out
 }
